@@ -39,6 +39,10 @@ Inductive mop :=
 | MUpdateMeta (now : Z)
 | MUpdateSize (sizes : list (string * Z))           (* per target: sum of the json sizes of its leaves *)
 | MSub (tgt : string)                               (* attach a STREAM/updates_only subscriber to the whole target *)
+| MSubP (tgt : string) (q : path)                   (* the same on a path below the target (subscription path q) *)
+| MUnsub (i : nat)                                  (* the i-th subscriber disconnects (its context is cancelled) *)
+| MGate                                             (* every subscriber's Send blocks from now on: backlogs build up *)
+| MUngate                                           (* ... and is released again *)
 | MSubWalk (now : Z) (tgt : string) (rm : option string).
     (* attach a STREAM subscriber WITH the initial walk; [rm = Some x]: Cache.Remove(x)
        is executed between the registration of the subscription and the walk
@@ -78,7 +82,7 @@ Definition op_addr (o : mop) : addr :=
   | MUpd _ n => match n_prefix n with Some pr => AOne (gp_target pr) | None => ANone end
   | MReset _ t | MRemove _ t | MAdd t | MSync _ t | MConnect _ t | MConnectError _ t _ => AOne t
   | MUpdateMeta _ | MUpdateSize _ => AAll
-  | MSub _ => ANone
+  | MSub _ | MSubP _ _ | MUnsub _ | MGate | MUngate => ANone
   | MSubWalk _ _ (Some x) => AOne x
   | MSubWalk _ _ None => ANone
   end.
@@ -157,7 +161,7 @@ Definition cstep (c : cache) (o : mop) : cache * rcls * mfeed :=
       let '(c', gs, r) := cache_connect_error c now tgt msg in (c', quiet r, MGroups gs)
   | MUpdateMeta now => let '(c', l, p) := cache_update_metadata c now in (c', opt_panic p, MBag l)
   | MUpdateSize sizes => (cache_update_size c sizes, ROk, MBag [])
-  | MSub _ => (c, ROk, MBag [])
+  | MSub _ | MSubP _ _ | MUnsub _ | MGate | MUngate => (c, ROk, MBag [])
   | MSubWalk now T rm =>
       (* Subscribe returns NotFound before anything else happens when [T] is unknown *)
       if cache_has_target c T then
@@ -171,13 +175,14 @@ Definition cstep (c : cache) (o : mop) : cache * rcls * mfeed :=
 (** * STREAM subscribers (sequential model) *)
 
 Inductive sresp := SSync | SUpd (n : notif).
-Inductive sstat := SRunning | SEndedOk | SNotFound | SEndedErr.
+Inductive sstat := SRunning | SEndedOk | SNotFound | SEndedErr | SCanceled.
 
-Record sub := Sub { sub_target : string; sub_stat : sstat }.
+Record sub := Sub { sub_target : string; sub_path : path; sub_stat : sstat }.
 
 Definition sstat_eqb (a b : sstat) : bool :=
   match a, b with
-  | SRunning, SRunning | SEndedOk, SEndedOk | SNotFound, SNotFound | SEndedErr, SEndedErr => true
+  | SRunning, SRunning | SEndedOk, SEndedOk | SNotFound, SNotFound | SEndedErr, SEndedErr
+  | SCanceled, SCanceled => true
   | _, _ => false
   end.
 
@@ -205,36 +210,60 @@ Definition feed_head (n : notif) : option string :=
   | [] => None
   end.
 
-(** is a feed entry offered to a subscriber of target [T] (whole target) *)
-Definition offered (T : string) (n : notif) : bool :=
-  String.eqb T "*" ||
-  match feed_head n with Some x => String.eqb x T | None => false end.
+(** match.Match: a client registered at query [q] is invoked for an update
+    with path [p] (match.go, branch.update): the clients of every node on the
+    way, every registration below the end of [p] ("implicit recursion for
+    intermediate deletes"), a "*" in [p] walks every child, a "*" in [q]
+    takes every element *)
+Fixpoint mmatch (q p : path) : bool :=
+  match q with
+  | [] => true
+  | k :: q' =>
+      match p with
+      | [] => true
+      | a :: p' =>
+          if String.eqb a "*" then mmatch q' p'
+          else (String.eqb k "*" || String.eqb k a) && mmatch q' p'
+      end
+  end.
+
+(** the paths Server.Update matches: ToStrings(prefix, true) ++ ToStrings(path,
+    false) of every update and delete of the notification *)
+Definition noti_paths (n : notif) : list path :=
+  let pre := to_strings true (gp_of_opt (n_prefix n)) in
+  map (fun u => pre ++ to_strings false (gp_of_opt (u_path u))) (n_upd n) ++
+  map (fun d => pre ++ to_strings false d) (n_del n).
+
+(** is a feed entry offered to a subscriber of target [T] with subscription
+    path [q] (registered at the query [T :: q]) *)
+Definition offered (T : string) (q : path) (n : notif) : bool :=
+  existsb (mmatch (T :: q)) (noti_paths n).
 
 (** sendStreamingResults over the feed entries of one call: the responses
     sent and whether the stream ended (single-target stream after a
     whole-target delete) *)
-Fixpoint stream_feed (T : string) (feed : list notif) : list sresp * bool :=
+Fixpoint stream_feed (T : string) (q : path) (feed : list notif) : list sresp * bool :=
   match feed with
   | [] => ([], false)
   | n :: rest =>
-      if offered T n then
+      if offered T q n then
         if negb (String.eqb T "*") && is_target_delete n then ([SUpd n], true)
-        else let '(out, e) := stream_feed T rest in (SUpd n :: out, e)
-      else stream_feed T rest
+        else let '(out, e) := stream_feed T q rest in (SUpd n :: out, e)
+      else stream_feed T q rest
   end.
 
 Definition sub_step (feed : list notif) (s : sub) : sub * list sresp :=
   match sub_stat s with
   | SRunning =>
-      let '(out, e) := stream_feed (sub_target s) feed in
-      (Sub (sub_target s) (if e then SEndedOk else SRunning), out)
+      let '(out, e) := stream_feed (sub_target s) (sub_path s) feed in
+      (Sub (sub_target s) (sub_path s) (if e then SEndedOk else SRunning), out)
   | _ => (s, [])
   end.
 
 (** Server.Subscribe up to the point where the stream runs: unknown target =
     NotFound; updates_only = the sync marker is queued first *)
-Definition sub_attach (c : cache) (T : string) : sub * list sresp :=
-  if cache_has_target c T then (Sub T SRunning, [SSync]) else (Sub T SNotFound, []).
+Definition sub_attach (c : cache) (T : string) (q : path) : sub * list sresp :=
+  if cache_has_target c T then (Sub T q SRunning, [SSync]) else (Sub T q SNotFound, []).
 
 (** processSubscription: the walk of the subscribed target after the hook
     operation (a Query error is ignored: no leaves) *)
@@ -247,34 +276,84 @@ Definition walk_of (c : cache) (T : string) : list notif :=
     the walked leaves, then the sync marker *)
 Definition sub_attach_walk (c0 c' : cache) (T : string) (feed : list notif) : sub * list sresp :=
   if cache_has_target c0 T then
-    let '(out, e) := stream_feed T feed in
-    if e then (Sub T SEndedOk, out)
-    else (Sub T SRunning, out ++ map SUpd (walk_of c' T) ++ [SSync])
-  else (Sub T SNotFound, []).
+    let '(out, e) := stream_feed T [] feed in
+    if e then (Sub T [] SEndedOk, out)
+    else (Sub T [] SRunning, out ++ map SUpd (walk_of c' T) ++ [SSync])
+  else (Sub T [] SNotFound, []).
+
+(** the i-th subscriber's context is cancelled: a running RPC returns
+    Canceled and its registrations are removed *)
+Fixpoint cancel_sub (i : nat) (l : list sub) : list sub :=
+  match l, i with
+  | [], _ => []
+  | s :: l', O => (match sub_stat s with
+                   | SRunning => Sub (sub_target s) (sub_path s) SCanceled
+                   | _ => s
+                   end) :: l'
+  | s :: l', S i' => s :: cancel_sub i' l'
+  end.
 
 (** * The whole step *)
 
-Record mstate := MS { ms_cache : cache; ms_subs : list sub }.
+(** [ms_gate = Some (stats, pending)]: the subscribers' Send is blocked; what
+    they would have been sent since is pending (the coalescing queue keeps it:
+    the generators never touch one leaf twice while gated), their RPCs have not
+    returned, so the statuses visible from outside are those at gate time *)
+Record mstate := MS {
+  ms_cache : cache;
+  ms_subs : list sub;
+  ms_gate : option (list sstat * list (list sresp))
+}.
+
+Definition ms_vis (s : mstate) : list sstat :=
+  match ms_gate s with
+  | Some (st, _) => st
+  | None => map sub_stat (ms_subs s)
+  end.
+
+Fixpoint zip_app {A} (a b : list (list A)) : list (list A) :=
+  match a, b with
+  | x :: a', y :: b' => (x ++ y) :: zip_app a' b'
+  | _, _ => a
+  end.
 
 Definition mstep (s : mstate) (o : mop) : mstate * rcls * mfeed * list (list sresp) :=
   let '(c', r, f) := cstep (ms_cache s) o in
   let stepped := map (sub_step (mfeed_list f)) (ms_subs s) in
   let subs' := map fst stepped in
   let outs := map snd stepped in
+  let held := fun (subs2 : list sub) (outs2 : list (list sresp)) =>
+    (* deliver now, or keep pending while gated *)
+    match ms_gate s with
+    | None => (MS c' subs2 None, r, f, outs2)
+    | Some (st, pend) => (MS c' subs2 (Some (st, zip_app pend outs2)), r, f, map (fun _ => []) outs2)
+    end in
   match o with
   | MSub T =>
-      let '(sb, out) := sub_attach c' T in
-      (MS c' (subs' ++ [sb]), r, f, outs ++ [out])
+      let '(sb, out) := sub_attach c' T [] in held (subs' ++ [sb]) (outs ++ [out])
+  | MSubP T q =>
+      let '(sb, out) := sub_attach c' T q in held (subs' ++ [sb]) (outs ++ [out])
   | MSubWalk _ T _ =>
       let '(sb, out) := sub_attach_walk (ms_cache s) c' T (mfeed_list f) in
-      (MS c' (subs' ++ [sb]), r, f, outs ++ [out])
-  | _ => (MS c' subs', r, f, outs)
+      held (subs' ++ [sb]) (outs ++ [out])
+  | MUnsub i => held (cancel_sub i subs') outs
+  | MGate =>
+      match ms_gate s with
+      | None => (MS c' subs' (Some (map sub_stat subs', map (fun _ => []) subs')), r, f, outs)
+      | Some _ => held subs' outs
+      end
+  | MUngate =>
+      match ms_gate s with
+      | Some (_, pend) => (MS c' subs' None, r, f, zip_app pend outs)
+      | None => held subs' outs
+      end
+  | _ => held subs' outs
   end.
 
 Definition mrun (s : mstate) (ops : list mop) : mstate :=
   fold_left (fun st o => fst (fst (fst (mstep st o)))) ops s.
 
-Definition minit (cfg : config) (names : list string) : mstate := MS (new_cache cfg names) [].
+Definition minit (cfg : config) (names : list string) : mstate := MS (new_cache cfg names) [] None.
 
 (** * Observations (shared by the C14 and C15 checkers) *)
 
@@ -419,7 +498,7 @@ Definition corr_step (o : mop) (s' : mstate) (r : rcls) (f : mfeed) (outs : list
                      tobs_eqb (model_tobs (ms_cache s') (fst kt)) (snd kt)) (o_tgts ob) &&
   Nat.eqb (List.length (star_dump (ms_cache s'))) (List.length (o_star ob)) &&
   Nat.eqb (List.length outs) (List.length (o_subs ob)) &&
-  forallb (fun x => group_eqb (mfeed_ordered f && negb (match o with MSubWalk _ _ _ => true | _ => false end))
+  forallb (fun x => group_eqb (mfeed_ordered f && negb (match o with MSubWalk _ _ _ | MUngate => true | _ => false end))
                               (fst (fst x)) (fst (snd x)) &&
-                    sstat_eqb (sub_stat (snd (fst x))) (snd (snd x)))
-          (combine (combine outs (ms_subs s')) (o_subs ob)).
+                    sstat_eqb (snd (fst x)) (snd (snd x)))
+          (combine (combine outs (ms_vis s')) (o_subs ob)).
